@@ -296,7 +296,8 @@ def readout_cases(draw):
     other = draw(st.sampled_from([None, None, KEYS[0], KEYS[5]]))
     case = {"times": ts, "other": other, "other_values": None, "dask": draw(st.sampled_from([True, True, True, False])),
             "user_times": draw(st.sampled_from([[3.0, 4.0], [1.0], [0.25, 0.5, 6.0]])), "non_destructive": draw(st.booleans()),
-            "bump": draw(st.sampled_from([1.0, 2.5])), "pre_state": draw(st.booleans()), "readout_first": draw(st.booleans())}
+            "bump": draw(st.sampled_from([1.0, 2.5])), "pre_state": draw(st.booleans()), "readout_first": draw(st.booleans()),
+            "start_time": draw(st.sampled_from([0.0, 0.0, 0.125, -1.0]))}  # (below every generated readout time)
     if other == KEYS[0]:
         case["other_values"] = draw(st.lists(st.integers(1, 40), min_size=1, max_size=3, unique=True))
     elif other == KEYS[5]:
@@ -312,7 +313,7 @@ def _ro_standalone(case, t, other_value):
     pipe["groups"]["charge_collection"][0]["arguments"]["level"] = s[KEYS[0]]
     det = simple_spec("CMOS", row=2, col=3)
     det["environment"]["temperature"] = s[KEYS[5]]
-    spec = {"detector": det, "pipeline": pipe, "mode": {"kind": "exposure"}, "readout": {"times": [float(t)]}, "non_destructive": case["non_destructive"]}
+    spec = {"detector": det, "pipeline": pipe, "mode": {"kind": "exposure"}, "readout": {"times": [float(t)], "start_time": case.get("start_time", 0.0)}, "non_destructive": case["non_destructive"]}
     cfg = pyx.build(spec)
     if case["pre_state"]:
         _pre_state(cfg)
@@ -324,14 +325,14 @@ def body_readout(case, rec):
     from vprobes import models as P
 
     P.reset()
-    rec.cls("ro:dask" if case["dask"] else "ro:seq", f"ro:runs:{len(case['times'])}", "ro:with_other_parameter" if case["other"] else "ro:alone",
+    rec.cls("ro:dask" if case["dask"] else "ro:seq", "ro:start_time_nonzero" if case.get("start_time") else "ro:start_time_0", f"ro:runs:{len(case['times'])}", "ro:with_other_parameter" if case["other"] else "ro:alone",
             f"ro:user_readouts:{len(case['user_times'])}")
     rec.nt(len(case["times"]) >= 2)
     params = [{"key": RO_KEY, "values": list(case["times"]), "enabled": True}]
     if case["other"]:
         o = {"key": case["other"], "values": list(case["other_values"]), "enabled": True}
         params = params + [o] if case["readout_first"] else [o] + params
-    spec = {"detector": simple_spec("CMOS", row=2, col=3), "pipeline": _pipeline(dict(case, steps=1)), "readout": {"times": list(case["user_times"])},
+    spec = {"detector": simple_spec("CMOS", row=2, col=3), "pipeline": _pipeline(dict(case, steps=1)), "readout": {"times": list(case["user_times"]), "start_time": case.get("start_time", 0.0)},
             "non_destructive": case["non_destructive"],
             "mode": {"kind": "observation", "mode": "product", "with_dask": case["dask"], "parameters": params}}
     cfg = None
